@@ -90,7 +90,7 @@ fn coils_eq(c: &Coils, bits: &[bool], pad: bool) -> V {
             return Err(format!("coil {i}: get={g:?} expected {exp}"));
         }
     }
-    let it = catch(|| c.into_iter().collect::<Vec<bool>>());
+    let it = catch(|| c.into_iter().take(c.len() + 2).collect::<Vec<bool>>());
     match it {
         Some(l) if l.len() == want && l.iter().zip(bits.iter()).all(|(a, b)| a == b) && l[n..].iter().all(|x| !*x) => Ok(()),
         other => Err(format!("iteration gives {:?}", other.map(|l| l.len()))),
@@ -107,7 +107,7 @@ fn data_eq(d: &Data, ws: &[u16]) -> V {
             return Err(format!("word {i}: get={g:?} expected {w:04X}"));
         }
     }
-    match catch(|| d.into_iter().collect::<Vec<u16>>()) {
+    match catch(|| d.into_iter().take(d.len() + 2).collect::<Vec<u16>>()) {
         Some(l) if l == ws => Ok(()),
         other => Err(format!("iteration gives {:?}", other.map(|l| l.len()))),
     }
@@ -538,6 +538,12 @@ fn adu_rsp(tr: &str, tid: u16, id: u8, spec: &PduSpec) -> String {
     if let RspM::Exc(f, _) = &m {
         if *f >= 0x80 {
             return "NA exception function >= 0x80".into();
+        }
+    }
+    if let RspM::Custom(c, _) = &m {
+        if *c >= 0x80 {
+            // on the wire this IS an exception PDU (function | 0x80, code): not a frameable successful response
+            return "NA custom response code >= 0x80 is an exception PDU on the wire".into();
         }
     }
     if !rsp_fits(&m) {
@@ -1077,7 +1083,7 @@ fn coherent_coils(c: &Coils) -> V {
             o => return Err(format!("len is {n} but get({i}) gives {o:?}")),
         }
     }
-    match catch(|| c.into_iter().count()) {
+    match catch(|| c.into_iter().take(c.len() + 2).count()) {
         Some(k) if k == n => Ok(()),
         o => Err(format!("len is {n} but iteration yields {o:?}")),
     }
@@ -1098,7 +1104,7 @@ fn coherent_data(d: &Data) -> V {
             o => return Err(format!("len is {n} but get({i}) gives {o:?}")),
         }
     }
-    match catch(|| d.into_iter().count()) {
+    match catch(|| d.into_iter().take(d.len() + 2).count()) {
         Some(k) if k == n => Ok(()),
         o => Err(format!("len is {n} but iteration yields {o:?}")),
     }
@@ -1360,7 +1366,7 @@ fn c16(bits: &[bool], tlen: usize, fill: &str) -> String {
                 return Err(format!("get({i}) with {n} coils gives {:?}, expected None", catch(|| c.get(i))));
             }
         }
-        match catch(|| c.into_iter().collect::<Vec<bool>>()) {
+        match catch(|| c.into_iter().take(c.len() + 2).collect::<Vec<bool>>()) {
             Some(l) if l == bits => Ok(()),
             o => Err(format!("iteration yields {:?} items / wrong bits", o.map(|l| l.len()))),
         }
@@ -1396,7 +1402,7 @@ fn c17(ws: &[u16], tlen: usize, fill: &str) -> String {
                 return Err(format!("get({i}) with {n} words gives {:?}, expected None", catch(|| d.get(i))));
             }
         }
-        match catch(|| d.into_iter().collect::<Vec<u16>>()) {
+        match catch(|| d.into_iter().take(d.len() + 2).collect::<Vec<u16>>()) {
             Some(l) if l == ws => {}
             o => return Err(format!("iteration yields {:?} items / wrong words", o.map(|l| l.len()))),
         }
